@@ -72,6 +72,7 @@ type consScenario struct {
 	SlowEvery      int
 	ChanBuf        int
 	FetchDefault   int32
+	FetchMax       int32 // Consumer.Fetch.Max (0 = unlimited): the fetch size grows by doubling and is clamped to it
 	HonourMax      bool
 	Committed      bool // ReadCommitted
 	ShuffleAborted bool
@@ -296,6 +297,7 @@ func runCons(sc *consScenario, rng *rand.Rand) *consResult {
 	conf.ChannelBufferSize = sc.ChanBuf
 	if sc.FetchDefault > 0 {
 		conf.Consumer.Fetch.Default = sc.FetchDefault
+		conf.Consumer.Fetch.Max = sc.FetchMax
 	}
 	if sc.Committed {
 		conf.Consumer.IsolationLevel = sarama.ReadCommitted
